@@ -49,7 +49,11 @@ type seenReq struct {
 
 func runTrafficCase(w *cw.Writer, tc trafficCase, kind string) error {
 	r := rng.New(tc.Seed)
-	d, sel, desc := genWorld(r, "")
+	shape := ""
+	if r.P(1, 4) {
+		shape = "empty" // a root with a zero-length raw leaf among its children
+	}
+	d, sel, desc := genWorld(r, shape)
 	tb := newTables()
 	pl, err := harvest(d, sel, tb)
 	if err != nil {
@@ -185,6 +189,12 @@ func runTrafficCase(w *cw.Writer, tc trafficCase, kind string) error {
 	}
 	if user > 0 {
 		tags = append(tags, "user_do_not_send_first_blocks")
+	}
+	if shape == "empty" {
+		tags = append(tags, "zero_length_block")
+		if inL[1] {
+			tags = append(tags, "zero_length_block_held_locally")
+		}
 	}
 	if userCids != nil {
 		tags = append(tags, "user_do_not_send_cids")
